@@ -296,7 +296,7 @@ def boost(raw):
             f["inpub"] = True
     for e in raw.get("enums", []):
         e["inpub"] = True
-    return hgen.with_arith_family(raw, pairs=True)
+    return hgen.with_member_defaults(hgen.with_arith_family(raw, pairs=True))
 
 
 NATIVE_PRELUDE = r"""
